@@ -33,12 +33,24 @@
 #include <unistd.h>
 #include <utf8proc.h>
 
+/* DRV_MT: several threads drive the library at once, each with its own driver state */
+#ifdef DRV_MT
+#include <pthread.h>
+#include <link.h>
+#define TLS __thread
+#ifndef DRV_NO_STACKSWITCH
+#define DRV_NO_STACKSWITCH
+#endif
+#else
+#define TLS
+#endif
+
 /* ------------------------------------------------------------------------------------------- */
 /* output                                                                                      */
 
-static FILE* out;
-static const char* cur_exec = "";
-static long n_lines = 0;
+static TLS FILE* out;
+static TLS const char* cur_exec = "";
+static TLS long n_lines = 0;
 
 static void emit_bytes(const char* key, const uint8_t* p, size_t n) {
     fprintf(out, ",\"%s\":[", key);
@@ -76,10 +88,10 @@ typedef struct {
     const char* sym;
 } ev_t;
 #define MAXEV 96
-static ev_t evq[MAXEV];
-static int nev = 0, ev_overflow = 0;
-static volatile int in_api = 0;     /* an API call is in flight */
-static volatile int in_stub = 0;    /* a dependency stub is running (its own libc use is not the library's) */
+static TLS ev_t evq[MAXEV];
+static TLS int nev = 0, ev_overflow = 0;
+static TLS volatile int in_api = 0;     /* an API call is in flight */
+static TLS volatile int in_stub = 0;    /* a dependency stub is running (its own libc use is not the library's) */
 
 static ev_t* ev_new(int kind, char impl) {
     if (nev >= MAXEV) { ev_overflow++; return &evq[MAXEV - 1]; }
@@ -99,9 +111,9 @@ static void cp(uint8_t* dst, size_t* n, const void* src, size_t len) {
 
 #define MAXBLK 4096
 typedef struct { void* p; size_t size; int id; bool live; } blk_t;
-static blk_t blks[MAXBLK];
-static int nblk = 0, next_blk_id = 1;
-static uint64_t fill_state = 0x9e3779b97f4a7c15ull;
+static TLS blk_t blks[MAXBLK];
+static TLS int nblk = 0, next_blk_id = 1;
+static TLS uint64_t fill_state = 0x9e3779b97f4a7c15ull;
 
 static blk_t* blk_of(const void* p, long* off) {
     for (int i = nblk - 1; i >= 0; --i) {
@@ -115,7 +127,7 @@ static blk_t* blk_of(const void* p, long* off) {
 }
 
 /* environment of the next calls */
-static struct {
+static TLS struct {
     uint8_t rand[64]; size_t rand_n;
     uint64_t time, libctime;
     uint8_t mask[64];
@@ -182,7 +194,7 @@ static uint64_t do_time(char impl) {
     return env.time;
 }
 
-static uint8_t* kdf_key_ptr; static size_t kdf_key_len; static uint8_t kdf_fill;
+static TLS uint8_t* kdf_key_ptr; static TLS size_t kdf_key_len; static TLS uint8_t kdf_fill;
 static void do_kdf(const uint8_t* pw, size_t pwlen, const uint8_t* salt, size_t saltlen,
     uint64_t iterations, uint8_t* key, size_t keylen, char impl) {
     ev_t* e = ev_new(EV_KDF, impl);
@@ -200,11 +212,11 @@ static void do_kdf(const uint8_t* pw, size_t pwlen, const uint8_t* salt, size_t 
 
 /* normalisation results are prepared before the call on the driver's own stack; the injected
    function only copies them (bounded by the buffer size of the header under test) */
-static uint8_t nfkd_prepared[70000]; static size_t nfkd_prepared_n; static bool nfkd_valid;
-static uint8_t nfc_in_seen[EVBUF];
+static TLS uint8_t nfkd_prepared[70000]; static TLS size_t nfkd_prepared_n; static TLS bool nfkd_valid;
+static TLS uint8_t nfc_in_seen[EVBUF];
 
-static const char* nfkd_for;     /* the argument the prepared result belongs to */
-static int quiet_normalise;      /* inside polyseed_inject: the debug self-test normalises 20480 words */
+static TLS const char* nfkd_for;     /* the argument the prepared result belongs to */
+static TLS int quiet_normalise;      /* inside polyseed_inject: the debug self-test normalises 20480 words */
 
 static size_t do_nfkd(const char* str, polyseed_str norm, char impl) {
     if (quiet_normalise || str != nfkd_for) {
@@ -258,7 +270,7 @@ static size_t do_nfc(const char* str, polyseed_str norm, char impl) {
 /* Every stub body runs on its own stack: dependency internals (malloc, utf8proc, logging) must
    neither overwrite what the library left in its dead frames nor leave copies of their own there. */
 enum { S_RAND, S_KDF, S_MEMZERO, S_NFC, S_NFKD, S_TIME, S_ALLOC, S_FREE, S_LIBCTIME, S_FORBID };
-static struct {
+static TLS struct {
     int which; char impl;
     const void* p1; const void* p2; void* p3;
     size_t n1, n2, n3; uint64_t u;
@@ -282,8 +294,8 @@ static void stub_body(void) {
     in_stub--;
 }
 
-static uint8_t* stubstk_top;
-static int on_call_stack;     /* the API call in flight runs on the scanned stack */
+static TLS uint8_t* stubstk_top;
+static TLS int on_call_stack;     /* the API call in flight runs on the scanned stack */
 
 static void stub_dispatch(void) {
 #if !defined(DRV_NO_STACKSWITCH) && defined(__x86_64__)
@@ -357,11 +369,11 @@ FORBID(realloc, void*, (void* p, size_t n), (p, n))
 
 #define NREG 4096
 typedef struct { polyseed_data* p; int id; } hreg_t;
-static hreg_t hregs[NREG];
-static int next_handle_id = 1;
+static TLS hreg_t hregs[NREG];
+static TLS int next_handle_id = 1;
 typedef struct { uint8_t* p; size_t n; bool set; } sreg_t;
-static sreg_t sregs[NREG];
-static uint8_t bregs[NREG][POLYSEED_SIZE]; static bool bset[NREG];
+static TLS sreg_t sregs[NREG];
+static TLS uint8_t bregs[NREG][POLYSEED_SIZE]; static TLS bool bset[NREG];
 
 static const char* LANG_IDS[10][2] = {
     {"English", "en"}, {"Japanese", "jp"}, {"Korean", "ko"}, {"Spanish", "es"}, {"French", "fr"},
@@ -392,8 +404,8 @@ static const polyseed_lang* lang_by_id(const char* id) {
 /* dedicated, pre-patterned call stack                                                         */
 
 #define STK_SIZE (256 * 1024)
-static uint8_t* stk;              /* usable region */
-static ucontext_t main_ctx, call_ctx;
+static TLS uint8_t* stk;              /* usable region */
+static TLS ucontext_t main_ctx, call_ctx;
 static void (*tramp_fn)(void);
 
 static void trampoline(void) { tramp_fn(); }
@@ -418,7 +430,7 @@ static void run_call(void (*fn)(void)) {
 /* needles: byte strings that must not be found on the dead stack */
 #define MAXNEEDLE 400
 typedef struct { const char* kind; uint8_t b[40]; size_t n; } needle_t;
-static needle_t needles[MAXNEEDLE]; static int nneedle;
+static TLS needle_t needles[MAXNEEDLE]; static TLS int nneedle;
 
 static void needle_add(const char* kind, const void* p, size_t n) {
     if (nneedle >= MAXNEEDLE || n > 40 || n == 0) return;
@@ -458,12 +470,16 @@ static void needles_indices(const gf_elem* c, int n) {
 }
 
 static void needles_seed(const polyseed_data* s, polyseed_coin coin) {
+#ifdef DRV_SO
+    (void)s; (void)coin;
+#else
     needles_windows("secret", s->secret, 19, 8);
     gf_poly poly = { 0 };
     poly.coeff[0] = s->checksum;
     polyseed_data_to_poly(s, &poly);
     needles_indices(poly.coeff, POLYSEED_NUM_WORDS);
     if (coin) { poly.coeff[1] ^= coin; needles_indices(poly.coeff, 5); }
+#endif
 }
 
 /* phrase text: every pair of adjacent tokens joined by the separators the library may hold them with */
@@ -494,7 +510,7 @@ static void needles_text(const uint8_t* s, size_t n) {
     }
 }
 
-static char residue_found[8][8]; static int nresidue;
+static TLS char residue_found[8][8]; static TLS int nresidue;
 /* scan the dead stack for the current needles; found kinds accumulate in residue_found */
 static void scan_stack(void) {
 #ifndef DRV_NO_STACKSWITCH
@@ -521,7 +537,7 @@ static void scan_stack(void) {
 /* guarded input buffers: the terminator is the last byte before an inaccessible page          */
 
 #define GUARD_ARENA (1 << 17)
-static uint8_t* guard_base;   /* GUARD_ARENA bytes, followed by a PROT_NONE page */
+static TLS uint8_t* guard_base;   /* GUARD_ARENA bytes, followed by a PROT_NONE page */
 static uint8_t* guard_place(const uint8_t* s, size_t n_with_nul) {
     if (n_with_nul > GUARD_ARENA) n_with_nul = GUARD_ARENA;
     uint8_t* p = guard_base + GUARD_ARENA - n_with_nul;
@@ -532,7 +548,7 @@ static uint8_t* guard_place(const uint8_t* s, size_t n_with_nul) {
 /* ------------------------------------------------------------------------------------------- */
 /* faults                                                                                      */
 
-static const char* cur_op = "";
+static TLS const char* cur_op = "";
 static void flush_queue(void);
 static char altstack[65536];
 
@@ -548,7 +564,13 @@ static void fault_line(const char* what, int sig) {
     fflush(out);
     _exit(0);
 }
-static void on_signal(int sig) { fault_line("signal", sig); }
+static uint8_t* prot_lo; static uint8_t* prot_hi;     /* write-protected library data (DRV_MT + DRV_SO) */
+static void on_signal(int sig, siginfo_t* si, void* ctx) {
+    (void)ctx;
+    if (sig == SIGSEGV && si && prot_lo && (uint8_t*)si->si_addr >= prot_lo && (uint8_t*)si->si_addr < prot_hi)
+        fault_line("global-write", sig);
+    fault_line("signal", sig);
+}
 #if defined(__has_feature)
 #if __has_feature(address_sanitizer)
 #define HAVE_ASAN 1
@@ -610,7 +632,7 @@ static void flush_queue(void) {
 /* ------------------------------------------------------------------------------------------- */
 /* the in-flight call                                                                          */
 
-static struct {
+static TLS struct {
     int op;
     polyseed_data* seed; polyseed_data* seed_out;
     const polyseed_lang* lang; const polyseed_lang* lang_out; bool want_lang;
@@ -624,9 +646,9 @@ static struct {
 enum { OP_INJECT, OP_ENABLE, OP_CREATE, OP_FREE, OP_ENCODE, OP_DECODE, OP_DECODEX, OP_STORE, OP_LOAD,
        OP_CRYPT, OP_KEYGEN, OP_BDAY, OP_FEAT, OP_ISENC, OP_NUMLANGS, OP_FIND };
 
-static polyseed_str g_str_out_area[2];         /* [0] is the caller's buffer, [1] must stay untouched */
-static uint8_t g_store_out[POLYSEED_SIZE + 16];
-static uint8_t g_key_out[1200];
+static TLS polyseed_str g_str_out_area[2];         /* [0] is the caller's buffer, [1] must stay untouched */
+static TLS uint8_t g_store_out[POLYSEED_SIZE + 16];
+static TLS uint8_t g_key_out[1200];
 
 static void call_body(void) {
     switch (C.op) {
@@ -645,7 +667,9 @@ static void call_body(void) {
     case OP_FEAT: C.retu = polyseed_get_feature(C.seed, C.u); break;
     case OP_ISENC: C.reti = polyseed_is_encrypted(C.seed); break;
     case OP_NUMLANGS: C.reti = polyseed_get_num_langs(); break;
+#ifndef DRV_SO
     case OP_FIND: C.reti = polyseed_lang_find_word(C.lang, C.str); break;
+#endif
     }
 }
 
@@ -661,7 +685,7 @@ static void api_call(bool on_stack) {
 /* ------------------------------------------------------------------------------------------- */
 /* projection of all live seeds through the public API                                         */
 
-static bool want_projection = true;
+static TLS bool want_projection = true;
 
 static void emit_live(void) {
     fprintf(out, ",\"live\":[");
@@ -783,15 +807,7 @@ static void finish_constructor(const char* op, int hr) {
 
 /* ------------------------------------------------------------------------------------------- */
 
-int main(int argc, char** argv) {
-    if (argc < 3) { fprintf(stderr, "usage: driver <script> <trace-out>\n"); return 2; }
-    FILE* in = fopen(argv[1], "r");
-    out = fopen(argv[2], "w");
-    if (!in || !out) { perror("open"); return 2; }
-    static char obuf[1 << 20];
-    setvbuf(out, obuf, _IOFBF, sizeof obuf);
-
-    /* stacks and guard arenas */
+static void thread_arenas(void) {
     long pg = sysconf(_SC_PAGESIZE);
     uint8_t* m = mmap(NULL, STK_SIZE + 2 * pg, PROT_READ | PROT_WRITE, MAP_PRIVATE | MAP_ANONYMOUS, -1, 0);
     mprotect(m, pg, PROT_NONE); mprotect(m + pg + STK_SIZE, pg, PROT_NONE);
@@ -802,19 +818,16 @@ int main(int argc, char** argv) {
     uint8_t* g = mmap(NULL, GUARD_ARENA + pg, PROT_READ | PROT_WRITE, MAP_PRIVATE | MAP_ANONYMOUS, -1, 0);
     mprotect(g + GUARD_ARENA, pg, PROT_NONE);
     guard_base = g;
+}
 
-    stack_t ss = { .ss_sp = altstack, .ss_size = sizeof altstack, .ss_flags = 0 };
-    sigaltstack(&ss, NULL);
-    struct sigaction sa; memset(&sa, 0, sizeof sa);
-    sa.sa_handler = on_signal; sa.sa_flags = SA_ONSTACK;
-    sigaction(SIGSEGV, &sa, NULL); sigaction(SIGBUS, &sa, NULL); sigaction(SIGABRT, &sa, NULL);
-    sigaction(SIGALRM, &sa, NULL); sigaction(SIGFPE, &sa, NULL); sigaction(SIGILL, &sa, NULL);
-#ifdef HAVE_ASAN
-    __sanitizer_set_death_callback(on_asan_death);
+static void emit_start(void) {
+    fprintf(out, "{\"e\":\"Start\",\"strsize\":%d,\"strsizeof\":%zu,\"datasize\":%d,\"stackscan\":%s,\"charsigned\":%s",
+        POLYSEED_STR_SIZE, sizeof(polyseed_str),
+#ifdef DRV_SO
+        0,
+#else
+        (int)sizeof(polyseed_data),
 #endif
-
-    fprintf(out, "{\"e\":\"Start\",\"strsize\":%d,\"strsizeof\":%zu,\"datasize\":%zu,\"stackscan\":%s,\"charsigned\":%s",
-        POLYSEED_STR_SIZE, sizeof(polyseed_str), sizeof(polyseed_data),
 #ifdef DRV_NO_STACKSWITCH
         "false",
 #else
@@ -822,17 +835,20 @@ int main(int argc, char** argv) {
 #endif
         ((char)-1) < 0 ? "true" : "false");
     eol();
+}
 
+static void run_script(FILE* in) {
     char* line = NULL; size_t cap = 0;
-    static char tok[24][140000];
-    static uint8_t tmp[70000];
+    char (*tok)[140000] = __real_malloc((size_t)24 * 140000);
+    uint8_t* tmp = __real_malloc(70000);
+    const size_t tmp_cap = 70000;
     while (getline(&line, &cap, in) > 0) {
         int nt = 0; char* p = line;
         while (nt < 24) {
             while (*p == ' ' || *p == '\t') ++p;
             if (*p == '\n' || *p == 0 || *p == '#') break;
             size_t k = 0;
-            while (*p && *p != ' ' && *p != '\t' && *p != '\n' && k < sizeof tok[0] - 1) tok[nt][k++] = *p++;
+            while (*p && *p != ' ' && *p != '\t' && *p != '\n' && k < 140000 - 1) tok[nt][k++] = *p++;
             tok[nt][k] = 0; ++nt;
         }
         if (nt == 0) continue;
@@ -856,7 +872,7 @@ int main(int argc, char** argv) {
                 else if (!strncmp(tok[i], "fail=", 5)) env.fail = (unsigned)strtoul(tok[i] + 5, NULL, 10);
             }
         }
-        else if (!strcmp(op, "str")) { size_t n = unhex(tok[2], tmp, sizeof tmp); set_sreg(reg(tok[1]), tmp, n); }
+        else if (!strcmp(op, "str")) { size_t n = unhex(tok[2], tmp, tmp_cap); set_sreg(reg(tok[1]), tmp, n); }
         else if (!strcmp(op, "buf")) { int r = reg(tok[1]); memset(bregs[r], 0, POLYSEED_SIZE); unhex(tok[2], bregs[r], POLYSEED_SIZE); bset[r] = true; }
         else if (!strcmp(op, "inject")) {
             /* the caller's struct lives in scratch memory that is overwritten right after the call */
@@ -885,12 +901,17 @@ int main(int argc, char** argv) {
                 const char* en = polyseed_get_lang_name_en(l); const char* nat = polyseed_get_lang_name(l);
                 fprintf(out, "%s{\"id\":\"%s\"", i ? "," : "", lang_id(l));
                 emit_bytes("en", (const uint8_t*)en, strlen(en)); emit_bytes("nat", (const uint8_t*)nat, strlen(nat));
+#ifndef DRV_SO
                 emit_bytes("sep", (const uint8_t*)l->separator, strlen(l->separator));
                 fprintf(out, ",\"sorted\":%s,\"prefix\":%s,\"accents\":%s,\"compose\":%s}", l->is_sorted ? "true" : "false",
                     l->has_prefix ? "true" : "false", l->has_accents ? "true" : "false", l->compose ? "true" : "false");
+#else
+                fputc('}', out);
+#endif
             }
             fputc(']', out); emit_ret_end();
         }
+#ifndef DRV_SO
         else if (!strcmp(op, "listwords")) {
             /* direct observation of the word table: one event per CHUNK words */
             const polyseed_lang* l = lang_by_id(tok[1]);
@@ -907,7 +928,7 @@ int main(int argc, char** argv) {
         }
         else if (!strcmp(op, "find")) {
             const polyseed_lang* l = lang_by_id(tok[1]);
-            size_t n = unhex(tok[2], tmp, sizeof tmp - 1); tmp[n] = 0;
+            size_t n = unhex(tok[2], tmp, tmp_cap - 1); tmp[n] = 0;
             if (l) {
                 C.op = OP_FIND; C.lang = l; C.str = (const char*)guard_place(tmp, n + 1);
                 api_call(false); nev = 0;
@@ -926,6 +947,7 @@ int main(int argc, char** argv) {
             for (int i = 0; i < 16; ++i) fprintf(out, i ? ",%u" : "%u", (unsigned)poly.coeff[i]);
             fprintf(out, "],\"ret\":%u", (unsigned)gf_poly_eval(&poly)); eol();
         }
+#endif
         else if (!strcmp(op, "create")) {
             int hr = reg(tok[1]); C.op = OP_CREATE; C.u = (unsigned)strtoul(tok[2], NULL, 10);
             fprintf(out, "{\"e\":\"Begin\",\"op\":\"Create\",\"lo\":%u,\"hi\":%u", C.u & 0xffff, C.u >> 16); eol();
@@ -1095,12 +1117,119 @@ int main(int argc, char** argv) {
         }
         else {
             fprintf(stderr, "driver: unknown op '%s'\n", op);
-            return 2;
+            exit(2);
         }
         alarm(0);
     }
+    __real_free(tok); __real_free(tmp); free(line);
+}
+
+static void install_handlers(void) {
+#ifndef DRV_MT
+    stack_t ss = { .ss_sp = altstack, .ss_size = sizeof altstack, .ss_flags = 0 };
+    sigaltstack(&ss, NULL);
+#endif
+    struct sigaction sa; memset(&sa, 0, sizeof sa);
+    sa.sa_sigaction = on_signal; sa.sa_flags = SA_ONSTACK | SA_SIGINFO;
+    sigaction(SIGSEGV, &sa, NULL); sigaction(SIGBUS, &sa, NULL); sigaction(SIGABRT, &sa, NULL);
+    sigaction(SIGALRM, &sa, NULL); sigaction(SIGFPE, &sa, NULL); sigaction(SIGILL, &sa, NULL);
+#ifdef HAVE_ASAN
+    __sanitizer_set_death_callback(on_asan_death);
+#endif
+}
+
+#ifndef DRV_MT
+int main(int argc, char** argv) {
+    if (argc < 3) { fprintf(stderr, "usage: driver <script> <trace-out>\n"); return 2; }
+    FILE* in = fopen(argv[1], "r");
+    out = fopen(argv[2], "w");
+    if (!in || !out) { perror("open"); return 2; }
+    static char obuf[1 << 20];
+    setvbuf(out, obuf, _IOFBF, sizeof obuf);
+    thread_arenas();
+    install_handlers();
+    emit_start();
+    run_script(in);
     reset_all();
     fprintf(out, "{\"e\":\"End\",\"complete\":true"); eol();
     fclose(out);
     return 0;
 }
+#else
+/* ---------------------------------------------------------------------------------------------- */
+/* several threads, disjoint seeds: usage  driver_mt <setup-script> <trace-prefix> <script>...     */
+/* The main thread runs the setup script (inject, enable); then every writable segment of the     */
+/* library object is made read-only (DRV_SO) and one thread per script runs concurrently.         */
+
+static const char* trace_prefix;
+static pthread_barrier_t start_barrier;
+
+static void* thread_main(void* arg) {
+    const char* path = arg;
+    static int counter = 0;
+    int me = __sync_fetch_and_add(&counter, 1);
+    char name[4096];
+    snprintf(name, sizeof name, "%s.%d", trace_prefix, me);
+    FILE* in = fopen(path, "r");
+    out = fopen(name, "w");
+    if (!in || !out) { perror("open"); exit(2); }
+    setvbuf(out, NULL, _IOFBF, 1 << 20);
+    thread_arenas();
+    emit_start();
+    fprintf(out, "{\"e\":\"Thread\",\"script\":\"%s\"", path); eol();
+    pthread_barrier_wait(&start_barrier);
+    run_script(in);
+    fprintf(out, "{\"e\":\"End\",\"complete\":true"); eol();
+    fclose(out);
+    return NULL;
+}
+
+#ifdef DRV_SO
+static int protect_cb(struct dl_phdr_info* info, size_t size, void* data) {
+    (void)size;
+    int prot = *(int*)data;
+    if (!info->dlpi_name || !strstr(info->dlpi_name, "polyseed_verif")) return 0;
+    long pg = sysconf(_SC_PAGESIZE);
+    for (int i = 0; i < info->dlpi_phnum; ++i) {
+        const ElfW(Phdr)* ph = &info->dlpi_phdr[i];
+        if (ph->p_type != PT_LOAD || !(ph->p_flags & PF_W)) continue;
+        uintptr_t lo = (info->dlpi_addr + ph->p_vaddr) & ~(uintptr_t)(pg - 1);
+        uintptr_t hi = (info->dlpi_addr + ph->p_vaddr + ph->p_memsz + pg - 1) & ~(uintptr_t)(pg - 1);
+        if (mprotect((void*)lo, hi - lo, prot) != 0) { perror("mprotect"); exit(2); }
+        if (prot == PROT_READ) { prot_lo = (uint8_t*)lo; prot_hi = (uint8_t*)hi; }
+    }
+    return 0;
+}
+#endif
+
+int main(int argc, char** argv) {
+    if (argc < 4) { fprintf(stderr, "usage: driver_mt <setup-script> <trace-prefix> <script>...\n"); return 2; }
+    trace_prefix = argv[2];
+    char name[4096];
+    snprintf(name, sizeof name, "%s.setup", trace_prefix);
+    FILE* in = fopen(argv[1], "r");
+    out = fopen(name, "w");
+    if (!in || !out) { perror("open"); return 2; }
+    thread_arenas();
+    install_handlers();
+    emit_start();
+    run_script(in);
+    fprintf(out, "{\"e\":\"End\",\"complete\":true"); eol();
+    fclose(out);
+    int n = argc - 3;
+    pthread_barrier_init(&start_barrier, NULL, (unsigned)n);
+#ifdef DRV_SO
+    int prot = PROT_READ;
+    dl_iterate_phdr(protect_cb, &prot);
+    if (!prot_lo) { fprintf(stderr, "driver_mt: library object not found\n"); return 2; }
+#endif
+    pthread_t th[64];
+    for (int i = 0; i < n && i < 64; ++i) pthread_create(&th[i], NULL, thread_main, argv[3 + i]);
+    for (int i = 0; i < n && i < 64; ++i) pthread_join(th[i], NULL);
+#ifdef DRV_SO
+    prot = PROT_READ | PROT_WRITE;
+    dl_iterate_phdr(protect_cb, &prot);
+#endif
+    return 0;
+}
+#endif
